@@ -721,6 +721,7 @@ def snapshot_module_state():
     import inspect
     _MODULE_STATE.clear()
     _BINDINGS.clear()
+    _CWD_BINDINGS.clear()
     _CACHED_FUNCS.clear()
     _INSTANCES.clear()
     import copy
@@ -742,6 +743,14 @@ def snapshot_module_state():
         if type(obj) in (list, dict, REAL["set"]) and id(obj) not in seen:
             seen.add(id(obj))
             _MODULE_STATE.append((obj, obj.copy(), where))
+        if owner is not None and IMPORT_CWD[0] is not None:
+            import pathlib
+            if isinstance(obj, pathlib.PurePath) and str(obj) == IMPORT_CWD[0]:
+                _CWD_BINDINGS.append((owner, attr, "path"))
+                return
+            if isinstance(obj, str) and obj == IMPORT_CWD[0]:
+                _CWD_BINDINGS.append((owner, attr, "str"))
+                return
         if owner is not None and type(obj) in (list, dict, REAL["set"]) + _SCALARS:
             _BINDINGS.append((owner, attr, obj, where))
     def consider_defaults(fn, where):
@@ -775,12 +784,23 @@ def snapshot_module_state():
     return len(_MODULE_STATE)
 
 
+_CWD_BINDINGS = []      # (owner, attribute, kind): module / class attributes that hold the import-time working directory
+IMPORT_CWD = [None]
 _INSTANCES = []         # (object, deep copy of its __dict__, where): module-level singletons and default-argument objects
 _CACHED_FUNCS = []      # functools caches (lru_cache / cache) on codelimit functions: process-lifetime state too
 
 
-def restore_module_state():
+def restore_module_state(cwd=None):
     n = 0
+    # a real process imports codelimit in the directory it is run from: a constant captured from
+    # os.getcwd() / Path.cwd() at import time equals that directory, not the harness's
+    if cwd is not None:
+        import pathlib
+        for owner, attr, kind in _CWD_BINDINGS:
+            try:
+                setattr(owner, attr, pathlib.Path(cwd) if kind == "path" else str(cwd))
+            except (AttributeError, TypeError):
+                pass
     for f in _CACHED_FUNCS:
         try:
             f.cache_clear()
@@ -840,6 +860,7 @@ def install(simset=True):
     os.environ["LANG"] = "C.UTF-8"
     os.environ.pop("GITHUB_REF", None)
     os.environ.pop("GITHUB_HEAD_REF", None)
+    IMPORT_CWD[0] = os.getcwd()
     import codelimit.__main__  # noqa: F401  loads every module the CLI uses
     import codelimit.common.Scanner as Scanner
     import codelimit.common.report.Report as ReportMod
